@@ -7,6 +7,11 @@ V = Path(__file__).resolve().parent.parent
 TECH = "TLA+ specification model-checked with TLC, bound to the implementation by trace validation (TLC checks recorded implementation traces against the abstract spec) and replay of TLC-generated cases/behaviours"
 
 CLAIMS = {
+    "C03": {
+        "text": "TLC explores every program (bounded: 2 threads, 2 collectors, 3 handle / 2 guard / 1 future slots, 6-8 operations drawn from new/clone/drop/enter/entered/exit in any order/in_scope/record/follows_from/Span::current/or_current/instrument/poll/drop/into_inner/panicking scopes/switch default, collectors that may reject a callsite and may hand out alias ids from clone_span) and checks that the calls span.rs/instrument.rs make (M) satisfy the property monitor (A): reference count 1+clones-closes equals the handles the program holds, enters-exits equals live guards per thread, every call reaches the creating collector, nothing follows the final close, disabled spans are silent. Binding: TLC -simulate programs (40 and 160 operations, 3 threads, 3 collectors) run against real tracing::Span and Instrumented (tracing and tracing-futures), one OS process each; TLC validates every recorded call list against the monitor.",
+        "note": "Trusted: recording collector (own reference counting, optional alias ids), the executor's unsafe lifetime extension of borrowed guards (guarded by the model's preconditions). MCalls disagreement alone is drift.",
+        "ref": "4 (C03)",
+    },
     "C20": {
         "text": "TLC runs the Gregorian calendar as an odometer (one state per day, advanced by the leap rule; one state per second of the day) and proves on every swept day that an independent closed form (Civil) equals it, plus the 400-year periodicity that extends it to every cycle - quick: one full 400-year cycle (146097 days) + 86400 seconds; thorough: 0001-01-01..9999-12-31. The real formatter (SystemTime::format_time, through the clock hook) is run on every day of the sweep, on every second in windows around year / leap-day / century / 400-year boundaries and the epoch, on pre-1970 instants with sub-second parts and on random and extreme instants over the whole i64 range; TLC validates every printed timestamp against Civil/Clock, truncation of micros, and monotonicity.",
         "note": "Trusted: the harness's i128 Euclidean split of an instant into (400-year cycle, day in cycle, second of day), needed because TLC integers are 32-bit; the strict parser of the printed text. Finding F13 (smallest SystemTime panics in debug builds) was found by this check and fixed (2a99690).",
